@@ -19,6 +19,8 @@ OPS = {
     "ITL": "insert into t(k, v, s) values " + ", ".join(f"({k}, {k % 9}, 'l{k % 4}')" for k in range(20, 60)),
     "IU": "insert into u values (1, 100), (4, 400), (5, null), (7, 700)",
     "ITS": "insert into t(k, v, s) select k + 10, w, 'z' from u",
+    # INSERT .. SELECT whose filter selects nothing (the operator hands an empty chunk to the storage transaction)
+    "IT0": "insert into t(k, v, s) select k, v, s from t where k > 1000",
     "D1": "delete from t where k < 3",
     "D2": "delete from t where v = 10",
     "DU": "delete from u where k = 4",
@@ -137,7 +139,7 @@ def judge_batch(chk, batch, res, lays, per, states):
 TYPED_DDL = ("create table w(k int primary key, si smallint, bi bigint, d double, de decimal(10,2), dt date, b boolean, "
              "iv interval, bl blob, ts timestamp, s varchar not null)")
 TYPED_OPS = {
-    "W1": "insert into w values (2, 1, 10000000000, 1.5, 1.25, date '2024-02-29', true, interval '1' day, '\\x00ff', '2024-02-29 23:59:59', 'a'), "
+    "W1": "insert into w values (2, 1, 10000000000, 1.5, 1.25, date '2024-02-29', true, interval '14' month, '\\x00ff', '2024-02-29 23:59:59', 'a'), "
           "(4, -5, -70000000000, -0.25, -0.01, date '1970-01-01', false, cast('1 day 2 hours 3 seconds' as interval), 'a''b', '1970-01-01 00:00:00', ''), "
           "(6, null, null, null, null, null, null, null, null, null, 'n')",
     "W2": "insert into w values (1, 32767, 922337203685477, 123456.789, 12345678.90, date '9999-12-31', true, interval '-2' month, 'c\\d', '2024-02-29 00:00:00', 'x,y'), "
